@@ -1183,6 +1183,11 @@ copy_file (char *from, char *to)
       else
         cp = from;
 
+      if (strlen (to) + 1 + strlen (cp) >= sizeof (newto))
+        {
+          close (from_fd);
+          return (-2);		/* no room for the name of the copy */
+        }
       sprintf (newto, "%s/%s", to, cp);
       to = newto;
     }
